@@ -125,3 +125,111 @@ mut("c02-quiet-ge-form", ["C02"], [(BM, '''			if backHeight < uint32(prevCheckpo
 				hmsg.peer.Disconnect()
 				return
 			}''')], [])
+
+# ---- C03 ----
+mut("c03-drop-tip-check", ["C03"], [(BM, '''	if *tip != msg.PrevFilterHeader {
+		return nil, 0, fmt.Errorf("attempt to write cfheaders out of "+
+			"order, tip=%v (height=%v), prev_hash=%v", *tip,
+			tipHeight, msg.PrevFilterHeader)
+	}''', '''	_, _ = tip, tipHeight''')], ["C03.G1"])
+mut("c03-deliver-before-verify", ["C03"], [(BM, '''	if !verifyCheckpoint(prevCheckpoint, nextCheckpoint, r) {
+		log.Warnf("Checkpoints at index %v don't match response!!!",
+			checkPointIndex)
+''', '''	select {
+	case c.headerChan <- r:
+	default:
+	}
+	if !verifyCheckpoint(prevCheckpoint, nextCheckpoint, r) {
+		log.Warnf("Checkpoints at index %v don't match response!!!",
+			checkPointIndex)
+''')], ["C03.G2"])
+mut("c03-verify-empty-true", ["C03"], [(BM, '''	lastHeader := cfheaders.PrevFilterHeader
+	for _, hash := range cfheaders.FilterHashes {
+		lastHeader = chainhash.DoubleHashH(
+			append(hash[:], lastHeader[:]...),
+		)
+	}
+
+	return lastHeader == *nextCheckpoint''', '''	if len(cfheaders.FilterHashes) == 0 {
+		return true
+	}
+	lastHeader := cfheaders.PrevFilterHeader
+	for _, hash := range cfheaders.FilterHashes {
+		lastHeader = chainhash.DoubleHashH(
+			append(hash[:], lastHeader[:]...),
+		)
+	}
+
+	return lastHeader == *nextCheckpoint''')], ["C03.G3"])
+mut("c03-rollback-block-first", ["C03"], [(BM, '''		// Only roll back filter headers if they've caught up this far.
+		if uint32(bs.Height) <= regHeight {
+			newFilterTip, err := b.cfg.RegFilterHeaders.RollbackLastBlock(newTip)
+			if err != nil {
+				return err
+			}
+			regHeight = uint32(newFilterTip.Height)
+		}
+
+		bs, err = b.cfg.BlockHeaders.RollbackLastBlock()
+		if err != nil {
+			return err
+		}
+''', '''		oldHeight := uint32(bs.Height)
+		bs, err = b.cfg.BlockHeaders.RollbackLastBlock()
+		if err != nil {
+			return err
+		}
+
+		// Only roll back filter headers if they've caught up this far.
+		if oldHeight <= regHeight {
+			newFilterTip, err := b.cfg.RegFilterHeaders.RollbackLastBlock(newTip)
+			if err != nil {
+				return err
+			}
+			regHeight = uint32(newFilterTip.Height)
+		}
+''')], ["C03.O2"])
+mut("c03-rollback-lt", ["C03"], [(BM, "if uint32(bs.Height) <= regHeight {", "if uint32(bs.Height) < regHeight {")], ["C03.O2"])
+mut("c03-uncheckpointed-keep-banned", ["C03"], [(BM, '''				if err != nil {
+					log.Errorf("Unable to ban peer %v: %v",
+						peer, err)
+				}
+				delete(headers, peer)
+			}
+		}
+	}
+
+	// Get the longest filter hash chain and write it to the store.''', '''				if err != nil {
+					log.Errorf("Unable to ban peer %v: %v",
+						peer, err)
+				}
+			}
+		}
+	}
+
+	// Get the longest filter hash chain and write it to the store.''')], ["C03.O1"])
+mut("c03-wrong-prev-no-ban", ["C03"], [(BM, '''		if msg.PrevFilterHeader != *filterTip {
+			err := b.cfg.BanPeer(peer, banman.InvalidFilterHeader)
+			if err != nil {
+				log.Errorf("Unable to ban peer %v: %v", peer, err)
+			}
+			delete(headers, peer)
+		}''', '''		if msg.PrevFilterHeader != *filterTip {
+			delete(headers, peer)
+		}''')], ["C03.O1"])
+mut("c03-filterhash-not-chained", ["C03"], [(BM, '''		headerBatch = append(headerBatch, headerfs.FilterHeader{
+			FilterHash: lastHeader,
+		})''', '''		headerBatch = append(headerBatch, headerfs.FilterHeader{
+			FilterHash: *hash,
+		})''')], ["C03.V1"])
+mut("c03-quiet-verify-early-eq", ["C03"], [(BM, '''	if *prevCheckpoint != cfheaders.PrevFilterHeader {
+		return false
+	}
+
+	lastHeader := cfheaders.PrevFilterHeader''', '''	switch {
+	case *prevCheckpoint == cfheaders.PrevFilterHeader:
+	default:
+		return false
+	}
+
+	lastHeader := cfheaders.PrevFilterHeader''')], [])
